@@ -2,6 +2,7 @@
 From BL Require Import Base.Prelude Base.Floats Mach.Val Mach.Ops Mach.Func Mach.Var
      Lang.Token Lang.Lex Lang.Ast Lang.Parse Mach.Compile Mach.Listing Mach.Runtime.
 From Coq Require Import Lia.
+From BL Require Import Proofs.DecN.
 Local Open Scope N_scope.
 
 Lemma advance_col_app c a b : advance_col c (a ++ b) = advance_col (advance_col c a) b.
@@ -58,4 +59,29 @@ Proof.
   destruct (Z.ltb_spec n (-255)); [lia |].
   destruct (Z.ltb_spec 255 n); [lia |]. cbn [orb].
   destruct (Z.ltb_spec n 0); [lia |]. reflexivity.
+Qed.
+
+(* ---------- numbers: leading blank or minus sign ---------- *)
+Local Open Scope N_scope.
+Theorem number_leading_sign : forall v, (match v with VInt _ | VSng _ | VDbl _ => True | _ => False end) ->
+  exists c rest, fmt_val v = c :: rest /\ (c = 32 \/ c = 45).
+Proof.
+  assert (Hlead : forall s : str, exists c rest,
+            (match s with c :: _ => if (c =? 45)%N then s else c_space :: s | [] => [c_space] end) = c :: rest /\ (c = 32 \/ c = 45)).
+  { intros s. destruct s as [| c r]; [eexists; eexists; split; [reflexivity | left; reflexivity] |].
+    destruct (N.eqb_spec c 45) as [-> | _]; eexists; eexists; (split; [reflexivity |]); [right | left]; reflexivity. }
+  intros v Hv. destruct v; try contradiction; cbn [fmt_val]; apply Hlead.
+Qed.
+
+(* a non-negative Integer prints as a blank and its decimal digits, which read back as the number *)
+Theorem integer_format : forall n, (0 <= n)%Z ->
+  fmt_val (VInt n) = 32 :: dec_of_N (Z.to_N n) /\ parse_udec (dec_of_N (Z.to_N n)) = Some (Z.to_N n).
+Proof.
+  intros n Hn. split; [| apply Proofs.DecN.parse_dec_of_N].
+  cbn [fmt_val]. unfold dec_of_Z. destruct (Z.ltb_spec n 0); [lia |].
+  replace (Z.abs_N n) with (Z.to_N n) by lia.
+  pose proof (Proofs.DecN.dec_of_N_digits (Z.to_N n)) as Hd.
+  destruct (dec_of_N (Z.to_N n)) as [| c r] eqn:E; [reflexivity |].
+  cbn in Hd. apply andb_prop in Hd. destruct Hd as [Hc _]. unfold is_digit in Hc. apply andb_prop in Hc. destruct Hc as [H1 H2].
+  apply N.leb_le in H1, H2. destruct (N.eqb_spec c 45); [lia | reflexivity].
 Qed.
